@@ -866,6 +866,16 @@ func (it *Interp) compute(fr *frame, v ssa.Value) AV {
 				return sl
 			}
 		}
+		if (a.Kind == KSym || a.Kind == KNonNil) && x.Max == nil {
+			// a symbolic string or slice with symbolic bounds: keep the bounds in the name
+			b := func(v ssa.Value) string {
+				if v == nil {
+					return ""
+				}
+				return it.val(fr, v).String()
+			}
+			return it.lookup(a.String() + "[" + b(x.Low) + ":" + b(x.High) + "]")
+		}
 		return it.lookup("slice(" + a.String() + ")")
 	case *ssa.Range:
 		return Sym("range(" + it.val(fr, x.X).String() + ")")
